@@ -239,11 +239,21 @@ def run(report, p):
                     nn = gg.node_for(n)
                     guards = [t for t in gg.nodes if t.kind == "test" and gg.dominates(t, nn) and "not in" in norm(t.ast) and "_ignore_list" in norm(t.ast)]
                     r4.check(bool(guards), m, n, "pattern appended without a `not in` de-duplication guard")
-                else:
+                elif meth in ("sort", "reverse", "remove", "pop", "clear", "insert", "__delitem__"):
                     r4.check(False, m, n, f"the pattern list is modified by .{meth}(): order / accumulation of recorded patterns is not preserved")
+                else:
+                    raise AnalysisError(f"{m.loc(n)}: unrecognised operation on the pattern list: {norm(n)[:80]}")
             if isinstance(n, ast.Assign) and any("_ignore_list" in norm(t) for t in n.targets):
                 v = n.value
-                r4.check(isinstance(v, ast.List) and not v.elts, m, n, "the pattern list is re-assigned (sorted / de-duplicated through a set / filtered): recorded order is not preserved")
+                vt = norm(v)
+                if isinstance(v, ast.List) and not v.elts:
+                    r4.check(True, m, n, "")
+                elif vt.startswith("list(dict.fromkeys(") and "_ignore_list +" in vt:
+                    r4.check(True, m, n, "")  # order-preserving de-duplication of old + new
+                elif vt.startswith(("sorted(", "set(", "list(set(", "reversed(", "list(reversed(")) or (isinstance(v, ast.Subscript) and isinstance(v.slice, ast.Slice)):
+                    r4.check(False, m, n, "the pattern list is re-assigned sorted / through a set / sliced: recorded order or content is not preserved")
+                else:
+                    raise AnalysisError(f"{m.loc(n)}: unrecognised re-assignment of the pattern list: {vt[:80]}")
     dfl = p.funcs.get("ascmhl.ignore.default_ignore_list")
     folder = p.module_const(p.modules["ascmhl.__version__"], "ascmhl_folder_name")
     dv = None
